@@ -781,12 +781,18 @@ var gridnDecl = &parser.FuncDefStmt{
 	ReturnType: parser.NONE_TYPE,
 }
 
+// minGridUnit is the smallest grid spacing gridn accepts, in canvas units.
+// Anything smaller is invisible (0.01 units are 0.1 SVG pixels) and makes
+// the platforms draw millions of lines or, below the floating-point
+// resolution of the canvas coordinates, loop forever.
+const minGridUnit = 0.01
+
 func gridnFunc(gridnFn func(float64, string)) builtinFunc {
 	return func(_ *scope, args []value) (value, error) {
 		unit := args[0].(*numVal)
 		color := args[1].(*stringVal)
-		if unit.V <= 0 {
-			return nil, fmt.Errorf(`%w: "gridn" unit must be greater than 0, found %v`, ErrBadArguments, unit.V)
+		if !(unit.V >= minGridUnit) { // written this way so that NaN is rejected as well
+			return nil, fmt.Errorf(`%w: "gridn" unit must be at least %v, found %v`, ErrBadArguments, minGridUnit, unit.V)
 		}
 		gridnFn(unit.V, color.V)
 		return nil, nil
